@@ -56,12 +56,17 @@ def prefix_equal(b, fs, ps, w):
 _B = None
 
 
-def _mk(name, src_any, dst_any, tier="quick", src_bits=None):
+def _mk(name, src_any, dst_any, tier="quick", src_bits=None, rng=(0, 32)):
+  """rng: the range of the entry's wildcarded-bit count on the 'any' side covered by this unit (the ranges together are 0..32;
+  split only so that the case analysis runs on several cores)"""
   def u(b):
     global _B
     _B = b
     flow, fi = build_match(b, "f.")
     b.assume(prereq_ok(b, fi))
+    if src_bits is None and (src_any or dst_any):
+      w_any = fi.src_w if src_any else fi.dst_w
+      b.assume(b.And(w_any >= rng[0], w_any <= rng[1]))
     pkt, pi = build_match(b, "p.")
     # the frame side is an exact match: address fields are either present in full or absent
     b.assume(b.Or(pi.src_w == 0, pi.src_w == 32))
@@ -93,8 +98,9 @@ def _mk(name, src_any, dst_any, tier="quick", src_bits=None):
   unit(P, target=MOD + "ofp_match.matches_with_wildcards", tier=tier, timeout_s=900)(u)
 
 
-_mk("match_predicate_src_prefixes", True, False)
-_mk("match_predicate_dst_prefixes", False, True)
+for _lo, _hi in ((0, 8), (9, 16), (17, 24), (25, 32)):
+  _mk("match_predicate_src_prefixes_%d_to_%d_bits_wild" % (_lo, _hi), True, False, rng=(_lo, _hi))
+  _mk("match_predicate_dst_prefixes_%d_to_%d_bits_wild" % (_lo, _hi), False, True, rng=(_lo, _hi))
 # both addresses under proper prefixes at once: one unit per source prefix length (2026-09-25: a single unit with both
 # lengths symbolic made the evaluator's case split on the shift amounts time out under load - UNDECIDED on the
 # unchanged tree; replaced by these)
